@@ -76,10 +76,30 @@ class Judge(object):
             # a crawl-batch generator was dropped half-way: the reference does not know how far it got
             self.cos = {}
             self.lost = True
+        # generators still suspended (the in-link mirrors of a batch are written last: no symmetry is owed before)
+        if not hasattr(self, "pending"):
+            self.pending = set()
+        if w[0] == "co" and len(w) > 2:
+            if w[1] == "new":
+                self.pending.add(w[2])
+            elif w[1] == "step" and ans != "yield":
+                self.pending.discard(w[2])
+        if w[0] in ("init", "clear", "overwrite"):
+            self.pending = set()
         try:
             if w[0] == "?":
                 if not self.lost:
                     self.query(idx, line, w[1:], ans)
+                elif not self.pending and w[1:] == ["linksiter", "0"] and self.prev[0] and self.prev[0].strip() == "? linksiter 1" \
+                        and ans.startswith("ok [") and self.prev[1].startswith("ok ["):
+                    # judged without the reference (it lost track at an interleaved request): the two directions list the same links
+                    self.judged += 1
+                    fwd = set(split_list(self.prev[1][3:]))
+                    bwd = set(">".join(reversed(x.split(">"))) for x in split_list(ans[3:]))
+                    if fwd != bwd:
+                        d = sorted(fwd ^ bwd)[:3]
+                        self.add(idx, line, "linksiter", "the out-link lists and the in-link lists do not hold the same links "
+                                 "(every request has completed): %s" % d, None, ans[:300])
             elif w[0] in ("hash",):
                 if not self.lost:
                     self.hash_line(idx, line, ans)
